@@ -95,7 +95,7 @@ func c01GetAlphabet() *c01Alphabet {
 		for _, u := range urls {
 			for _, s := range srcs {
 				for _, t := range []rules.RequestType{rules.TypeScript, rules.TypeDocument} {
-					a.requests = append(a.requests, c04Req{rules.NewRequest(u, s, t), fmt.Sprintf("url=%s src=%s type=%d", clip(u), s, t)})
+					a.requests = append(a.requests, c04Req{q: rules.NewRequest(u, s, t), desc: fmt.Sprintf("url=%s src=%s type=%d", clip(u), s, t)})
 				}
 			}
 		}
@@ -105,13 +105,13 @@ func c01GetAlphabet() *c01Alphabet {
 				if withClient {
 					q.ClientIP, q.ClientName, q.SortedClientTags, q.DNSType = mustAddr("10.0.0.1"), "laptop", []string{"pc"}, 1
 				}
-				a.requests = append(a.requests, c04Req{q, fmt.Sprintf("hostname=%s client=%v", h, withClient)})
+				a.requests = append(a.requests, c04Req{q: q, desc: fmt.Sprintf("hostname=%s client=%v", h, withClient)})
 			}
 			// the same hostname request on a request object that was used for a URL before
 			// (the way a pool of request objects hands them out)
 			q := rules.NewRequest("https://ads5.example.org/banner/ads.js?x=1", "https://example.com/page", rules.TypeScript)
 			rules.FillRequestForHostname(q, h)
-			a.requests = append(a.requests, c04Req{q, fmt.Sprintf("hostname=%s on a request object filled for a URL before", h)})
+			a.requests = append(a.requests, c04Req{q: q, desc: fmt.Sprintf("hostname=%s on a request object filled for a URL before", h)})
 		}
 		c01Alpha = a
 	})
